@@ -836,7 +836,10 @@ def record_trace(ctx, rng, tid, sampler, tmpdir, ncalls, events, pyverdicts, wid
                 return
             events.append(dict(base, ev='setobs', id=len(events), d0=w.d0, proj=w.project(w.model, w.obs), keep=w.on_model(),
                                nb0=nb0, nb=len(w.bin_lo)))
-        if rng.random() < 0.3:
+        # the first call on a survey-size observation and the first call after set_observed: a log-likelihood call at
+        # the low end of every prior range (a valid atmosphere in the wide world), so that these classes never stay empty
+        safe = c == switch_at or (c == 0 and w.layout == 'survey')
+        if not safe and rng.random() < 0.3:
             den = rng.choice([2, 4, 8, 16])
             u = [Fraction(rng.randint(1, den - 1), den) if w.pri[n][0] in ('gauss', 'loggauss')
                  else Fraction(rng.randint(0, den), den) for n in w.fit]
@@ -861,6 +864,8 @@ def record_trace(ctx, rng, tid, sampler, tmpdir, ncalls, events, pyverdicts, wid
             x = list(w.last_valid_x)                      # revisit a point after other (possibly invalid) calls
         r = rng.random()
         inject = 'raise' if r < 0.1 else 'NaNAll' if r < 0.16 else 'NaNSome' if r < 0.22 else None
+        if safe:
+            x, inject = [w.range[n][0] for n in w.fit], None
         if w.kind == 'wide' and inject == 'NaNSome':
             inject = None                      # defined on native indices of the clipped grid: narrow worlds only
         before = w.project(w.model, w.obs)
